@@ -14,3 +14,76 @@ def entity_ids(h5file):
             found.setdefault(str(eid), []).append(name)
     h5file.visititems(visit)
     return found
+
+
+def digest(h5file):
+    """Structural dump of the whole HDF5 file: for every group its links in iteration order, for every
+    object its attributes and (for datasets) dtype, shape and content hash. Objects reachable through
+    several links are dumped once and referenced afterwards."""
+    import hashlib
+    import numpy as np
+    seen = {}
+    out = []
+
+    def attrs_of(obj):
+        res = []
+        for k in sorted(obj.attrs.keys()):
+            v = obj.attrs[k]
+            if isinstance(v, np.ndarray):
+                v = v.tolist()
+            res.append((k, repr(v)))
+        return res
+
+    def go(grp, path):
+        for name in grp:
+            p = path + "/" + name
+            try:
+                obj = grp[name]
+            except Exception as e:  # noqa
+                out.append((p, "dangling", type(e).__name__))
+                continue
+            key = obj.id
+            if key in seen:
+                out.append((p, "link-to", seen[key]))
+                continue
+            seen[key] = p
+            if isinstance(obj, h5py.Group):
+                if len(obj) == 0 and len(obj.attrs) == 0:
+                    # an empty, attribute-less container group holds no entity, attribute, data or link and
+                    # cannot be observed through the API: its presence/absence is not part of the state
+                    continue
+                out.append((p, "group", attrs_of(obj)))
+                go(obj, p)
+            else:
+                try:
+                    data = obj[()]
+                    if isinstance(data, np.ndarray):
+                        if data.dtype == object or data.dtype.fields:
+                            h = hashlib.sha1(repr(data.tolist()).encode("utf-8", "replace")).hexdigest()[:12]
+                        else:
+                            h = hashlib.sha1(np.ascontiguousarray(data).tobytes()).hexdigest()[:12]
+                    else:
+                        h = repr(data)
+                except Exception as e:  # noqa
+                    h = "unreadable-" + type(e).__name__
+                out.append((p, "dataset", str(obj.dtype), tuple(obj.shape), h, attrs_of(obj)))
+    out.append(("/", "root", attrs_of(h5file)))
+    go(h5file, "")
+    return out
+
+
+def digest_diff(a, b, limit=6):
+    da = {x[0]: x for x in a}
+    db = {x[0]: x for x in b}
+    res = []
+    for k in da:
+        if k not in db:
+            res.append("removed " + k)
+        elif da[k] != db[k]:
+            res.append("changed %s: %r -> %r" % (k, da[k][1:], db[k][1:]))
+    for k in db:
+        if k not in da:
+            res.append("added " + k)
+    if not res and [x[0] for x in a] != [x[0] for x in b]:
+        res.append("link order changed")
+    return res[:limit]
